@@ -297,3 +297,12 @@ def v8(ctx):
 
 
 RULES = [v1, v2, v3, v4, v5, v7, v8]
+
+
+@rule("V5w", doc="compile-fail witnesses: a searcher / a shared reference cannot mutate the e-graph", thorough_only=True, once=True)
+def v5w(ctx):
+    from salib import witness
+    witness.check(ctx, ['c05_searcher_mutates', 'c09_add_through_shared', 'c09_union_through_shared'])
+
+
+RULES.append(v5w)
